@@ -101,9 +101,10 @@ def inst_task(task):
         if len(l) != 80:
             out.append(("HARNESS", "template", f"template line is {len(l)} columns: {l!r}"))
     ctxs = contexts(fname)
-    for cname, body in ctxs.items():
+    for cname, body in list(ctxs.items()) + [("glued:" + c, b) for c, b in ctxs.items()]:
         n += 1
-        k, r = count_invalid(fname, hdr + "\n" + body)
+        # "glued": what follows starts directly under the 11th header line, without the empty line
+        k, r = count_invalid(fname, hdr + ("" if cname.startswith("glued:") else "\n") + body)
         if k != 0:
             out.append(("accept", f"context={cname}", f"{k} INVALID_HEADER for a well-formed header ({label})"))
         if r.exc is not None:
